@@ -17,6 +17,9 @@ structure Th where
 inductive HEv
   | start (th : Th)        -- a thread starts running (through any API)
   | finish (uid : Nat)     -- it is gone from `sys._current_frames()`
+  | rename (uid : Nat) (ignored : Bool)
+      -- the thread's name changes (`thread.name = …`, or a `_thread` thread registers with `threading` and
+      -- turns from `Dummy-<ident>` into `Dummy-<n>`): whether it matches an ignore pattern from now on
   | testStart              -- `startTest`: snapshot
   | testStop               -- `stopTest`: report
   deriving Repr
@@ -31,6 +34,7 @@ structure St where
 def step (s : St) : HEv → St
   | .start th => { s with alive := s.alive ++ [th], born := s.born ++ [th.uid] }
   | .finish u => { s with alive := s.alive.filter (fun th => th.uid != u) }
+  | .rename u b => { s with alive := s.alive.map (fun th => if th.uid == u then { th with ignored := b } else th) }
   | .testStart => { s with snapshot := s.alive.map (·.ident), born := [] }
   | .testStop =>
     { s with
